@@ -200,6 +200,46 @@ def check_default_sources(S, rule, only=None):
     return values
 
 
+def check_first_config_wins(P, rule):
+    """configuration discovery stops at the first file that carries a configuration: the statement that stores a discovered configuration into
+    the variable the run continues with is executed at most once — it is not part of the loop over the candidate paths (the loop is left right
+    after it).  Without that exit a later candidate (../tauri.conf.json) overrides the nearer one, its outputPath included.  Shared by C19-D3
+    (precedence) and C16-D2 (which directory is the configured output directory)."""
+    n = 0
+    for fid, f in sorted(P.fns.items()):
+        if "{closure" in fid or "{promoted" in fid or not fid.startswith(("tauri_typegen", "cargo_tauri_typegen")):
+            continue
+        for c in f.calls:
+            if c.bb not in f.reach_blocks or short_path(c.best) != "GenerateConfig::from_tauri_config":
+                continue
+            loops = [(h, body) for (h, body) in f._natural_loops() if c.bb in body]
+            if not loops:
+                continue
+            h, body = min(loops, key=lambda hb: len(hb[1]))
+            seedl = c.dest["l"]
+            T, _calls = f.forward_taint(lambda pl: pl.get("l") == seedl)
+            n += 1
+            hit = False
+            for b in sorted(body):
+                for st in f.blocks[b]["stmts"]:
+                    lhs = st.get("lhs")
+                    if not lhs or lhs.get("p") or lhs["l"] not in T or lhs["l"] == seedl or not f.varnames.get(lhs["l"]):
+                        continue
+                    rv = st.get("rv") or {}
+                    src = (rv.get("op") or {}).get("move") or (rv.get("op") or {}).get("copy") if rv.get("k") == "use" else None
+                    if not src or src.get("l") not in T:
+                        continue
+                    outside = [d for d in f.defs.get(lhs["l"], []) if d[0] in ("stmt", "call") and d[1] not in body and d[1] in f.reach_blocks]
+                    if outside:
+                        hit = True
+                        rule.bad(V(rule.id, fid, "discovery-continues-after-first-config:%s" % f.varnames[lhs["l"]],
+                                   "%s: `%s` receives the discovered configuration inside the loop over the candidate files and the loop goes on: a later "
+                                   "candidate overrides the first one found" % (short_path(fid), f.varnames[lhs["l"]]), c.file, c.line))
+            if not hit:
+                rule.ok("%s: discovery stops at the first configuration found" % short_path(fid))
+    return n
+
+
 def check(ctx):
     P = ctx.P
     S = ctx.S
@@ -494,6 +534,7 @@ def check(ctx):
                 else:
                     r3.bad(V(r3.id, rg.id, "default-with-file", "GenerateConfig::default() is used although a configuration file was given (guards %s)" % conds, c.file, c.line))
     r3.require_floor(8, "override facts")
+    check_first_config_wins(P, r3)
     rules.append(r3)
 
     # ---------------------------------------------------------------- D4
